@@ -11,6 +11,8 @@ checkers of `Toq.Model.Metrics`.
 open Matrix
 open scoped ComplexOrder MatrixOrder
 
+set_option linter.unusedSectionVars false
+
 namespace Toq.Metrics
 
 /-! ## Contractions and the trace norm -/
@@ -154,5 +156,328 @@ theorem traceNormV_zero_gen : traceNormV (0 : Matrix ι ι ℂ) = 0 := by
   rw [traceNormV, this, csSup_singleton]
 
 end TraceNorm
+
+/-! ## Block matrices and Watrous' fidelity program -/
+
+section Fidelity
+variable {ι : Type*} [Fintype ι] [DecidableEq ι]
+
+theorem trace_fromBlocks' (A B C D : Matrix ι ι ℂ) :
+    (fromBlocks A B C D).trace = A.trace + D.trace := by
+  simp [Matrix.trace, Fintype.sum_sum_type]
+
+/-- Gram form: `[[AᴴA, AᴴB], [BᴴA, BᴴB]] = [A B]ᴴ [A B]` is positive semidefinite -/
+theorem posSemidef_fromBlocks_gram (A B : Matrix ι ι ℂ) :
+    (fromBlocks (Aᴴ * A) (Aᴴ * B) (Bᴴ * A) (Bᴴ * B)).PosSemidef := by
+  have h := Matrix.posSemidef_conjTranspose_mul_self (fromBlocks A B (0 : Matrix ι ι ℂ) 0)
+  rw [fromBlocks_conjTranspose, fromBlocks_multiply] at h
+  simpa using h
+
+/-- block-diagonal matrices with PSD blocks are PSD -/
+theorem posSemidef_fromBlocks_diag {ρ σ : Matrix ι ι ℂ} (hρ : ρ.PosSemidef) (hσ : σ.PosSemidef) :
+    (fromBlocks ρ 0 0 σ).PosSemidef := by
+  have h1 := posSemidef_fromBlocks_gram (CFC.sqrt ρ) (0 : Matrix ι ι ℂ)
+  have h2 := posSemidef_fromBlocks_gram (0 : Matrix ι ι ℂ) (CFC.sqrt σ)
+  have e1 : (CFC.sqrt ρ)ᴴ * CFC.sqrt ρ = ρ := by
+    rw [((CFC.sqrt_nonneg ρ).posSemidef).isHermitian.eq]; exact CFC.sqrt_mul_sqrt_self ρ hρ.nonneg
+  have e2 : (CFC.sqrt σ)ᴴ * CFC.sqrt σ = σ := by
+    rw [((CFC.sqrt_nonneg σ).posSemidef).isHermitian.eq]; exact CFC.sqrt_mul_sqrt_self σ hσ.nonneg
+  have := h1.add h2
+  rw [fromBlocks_add] at this
+  simpa [e1, e2] using this
+
+/-- `X` is feasible for the fidelity program of `(ρ, σ)`: `[[ρ, X], [Xᴴ, σ]] ⪰ 0` -/
+def FidFeasible (ρ σ X : Matrix ι ι ℂ) : Prop := (fromBlocks ρ X Xᴴ σ).PosSemidef
+
+/-- `[[Y, C], [Cᴴ, Z]] ⪰ 0` -/
+def DualBlockPsd (Y Z C : Matrix ι ι ℂ) : Prop := (fromBlocks Y C Cᴴ Z).PosSemidef
+
+/-- `(Y, Z)` is feasible for the dual of the fidelity program: `[[Y, −1], [−1, Z]] ⪰ 0` -/
+def FidDualFeasible (Y Z : Matrix ι ι ℂ) : Prop := DualBlockPsd Y Z (-1)
+
+/-- `(Re tr(Y ρ) + Re tr(Z σ)) / 2` -/
+noncomputable def dualVal (ρ σ Y Z : Matrix ι ι ℂ) : ℝ := ((Y * ρ).trace.re + (Z * σ).trace.re) / 2
+
+/-- trace inner product of a primal and a dual block matrix -/
+theorem block_trace_nonneg {ρ σ X Y Z C : Matrix ι ι ℂ} (hP : FidFeasible ρ σ X)
+    (hD : DualBlockPsd Y Z C) :
+    0 ≤ (ρ * Y).trace.re + (X * Cᴴ).trace.re + (Xᴴ * C).trace.re + (σ * Z).trace.re := by
+  have h := psd_trace_mul_nonneg hP hD
+  rw [fromBlocks_multiply, trace_fromBlocks', Matrix.trace_add, Matrix.trace_add, Complex.add_re,
+    Complex.add_re, Complex.add_re] at h
+  linarith
+
+/-- weak duality for the fidelity program -/
+theorem fid_weak_duality_gen {ρ σ X Y Z : Matrix ι ι ℂ} (hP : FidFeasible ρ σ X)
+    (hD : FidDualFeasible Y Z) : X.trace.re ≤ dualVal ρ σ Y Z := by
+  have h := block_trace_nonneg hP hD
+  have e1 : (Xᴴ).trace.re = X.trace.re := by rw [Matrix.trace_conjTranspose]; simp
+  rw [Matrix.conjTranspose_neg, Matrix.conjTranspose_one, Matrix.mul_neg, Matrix.mul_neg,
+    Matrix.mul_one, Matrix.mul_one, Matrix.trace_neg, Matrix.trace_neg, Complex.neg_re,
+    Complex.neg_re, e1, Matrix.trace_mul_comm ρ Y, Matrix.trace_mul_comm σ Z] at h
+  unfold dualVal
+  linarith
+
+/-- weak duality for the Hermitian-restricted (Matsumoto) program: the dual off-diagonal block only
+needs `C + Cᴴ = −2` -/
+theorem mats_weak_duality_gen {ρ σ W Y Z C : Matrix ι ι ℂ} (hW : W.IsHermitian)
+    (hP : FidFeasible ρ σ W) (hC : C + Cᴴ = (-2 : ℂ) • (1 : Matrix ι ι ℂ)) (hD : DualBlockPsd Y Z C) :
+    W.trace.re ≤ dualVal ρ σ Y Z := by
+  have h := block_trace_nonneg hP hD
+  have e : (W * Cᴴ).trace.re + (Wᴴ * C).trace.re = -2 * W.trace.re := by
+    rw [hW.eq, ← Complex.add_re, ← Matrix.trace_add, ← Matrix.mul_add, add_comm Cᴴ C, hC,
+      Matrix.mul_smul, Matrix.mul_one, Matrix.trace_smul, smul_eq_mul]
+    simp
+  rw [Matrix.trace_mul_comm ρ Y, Matrix.trace_mul_comm σ Z] at h
+  unfold dualVal
+  linarith
+
+/-- `Y = Z = 1` is dual feasible -/
+theorem fidDualFeasible_one : FidDualFeasible (1 : Matrix ι ι ℂ) 1 := by
+  have h := posSemidef_fromBlocks_gram (1 : Matrix ι ι ℂ) (-1)
+  unfold FidDualFeasible DualBlockPsd
+  simpa using h
+
+/-- the values `Re tr X` over all feasible `X` -/
+def fidSet (ρ σ : Matrix ι ι ℂ) : Set ℝ := {x | ∃ X, FidFeasible ρ σ X ∧ X.trace.re = x}
+
+/-- root fidelity as the optimal value of Watrous' program -/
+noncomputable def fidV (ρ σ : Matrix ι ι ℂ) : ℝ := sSup (fidSet ρ σ)
+
+theorem fidSet_bddAbove (ρ σ : Matrix ι ι ℂ) : BddAbove (fidSet ρ σ) := by
+  refine ⟨dualVal ρ σ 1 1, ?_⟩
+  rintro x ⟨X, hX, rfl⟩
+  exact fid_weak_duality_gen hX fidDualFeasible_one
+
+theorem zero_mem_fidSet {ρ σ : Matrix ι ι ℂ} (hρ : ρ.PosSemidef) (hσ : σ.PosSemidef) :
+    (0 : ℝ) ∈ fidSet ρ σ := by
+  refine ⟨0, ?_, by simp⟩
+  unfold FidFeasible
+  simpa using posSemidef_fromBlocks_diag hρ hσ
+
+theorem le_fidV_gen {ρ σ X : Matrix ι ι ℂ} (hX : FidFeasible ρ σ X) : X.trace.re ≤ fidV ρ σ :=
+  le_csSup (fidSet_bddAbove ρ σ) ⟨X, hX, rfl⟩
+
+theorem fidV_le_gen {ρ σ Y Z : Matrix ι ι ℂ} (hρ : ρ.PosSemidef) (hσ : σ.PosSemidef)
+    (hD : FidDualFeasible Y Z) : fidV ρ σ ≤ dualVal ρ σ Y Z := by
+  refine csSup_le ⟨0, zero_mem_fidSet hρ hσ⟩ ?_
+  rintro x ⟨X, hX, rfl⟩
+  exact fid_weak_duality_gen hX hD
+
+theorem fidFeasible_swap {ρ σ X : Matrix ι ι ℂ} (h : FidFeasible ρ σ X) : FidFeasible σ ρ Xᴴ := by
+  unfold FidFeasible at h ⊢
+  have := h.submatrix (Sum.swap : ι ⊕ ι → ι ⊕ ι)
+  rw [fromBlocks_submatrix_sum_swap_sum_swap] at this
+  rwa [Matrix.conjTranspose_conjTranspose]
+
+theorem fidSet_symm (ρ σ : Matrix ι ι ℂ) : fidSet ρ σ = fidSet σ ρ := by
+  have key : ∀ ρ σ : Matrix ι ι ℂ, fidSet ρ σ ⊆ fidSet σ ρ := by
+    rintro ρ σ x ⟨X, hX, rfl⟩
+    refine ⟨Xᴴ, fidFeasible_swap hX, ?_⟩
+    rw [Matrix.trace_conjTranspose]; simp
+  exact Set.Subset.antisymm (key ρ σ) (key σ ρ)
+
+theorem fidFeasible_conj {ρ σ X : Matrix ι ι ℂ} (U : Matrix ι ι ℂ) (h : FidFeasible ρ σ X) :
+    FidFeasible (U * ρ * Uᴴ) (U * σ * Uᴴ) (U * X * Uᴴ) := by
+  unfold FidFeasible at h ⊢
+  have := h.mul_mul_conjTranspose_same (fromBlocks U 0 0 U)
+  rw [fromBlocks_conjTranspose, fromBlocks_multiply, fromBlocks_multiply] at this
+  simpa [Matrix.conjTranspose_mul, Matrix.mul_assoc] using this
+
+theorem fidSet_conj (ρ σ U : Matrix ι ι ℂ) (hU : Uᴴ * U = 1) :
+    fidSet (U * ρ * Uᴴ) (U * σ * Uᴴ) = fidSet ρ σ := by
+  ext x
+  constructor
+  · rintro ⟨X, hX, rfl⟩
+    refine ⟨Uᴴ * X * U, ?_, ?_⟩
+    · have := fidFeasible_conj Uᴴ hX
+      have e : ∀ A : Matrix ι ι ℂ, Uᴴ * (U * A * Uᴴ) * Uᴴᴴ = A := by
+        intro A
+        rw [Matrix.conjTranspose_conjTranspose]
+        calc Uᴴ * (U * A * Uᴴ) * U = (Uᴴ * U) * A * (Uᴴ * U) := by simp only [Matrix.mul_assoc]
+          _ = A := by rw [hU, Matrix.one_mul, Matrix.mul_one]
+      rwa [e ρ, e σ, Matrix.conjTranspose_conjTranspose] at this
+    · rw [Matrix.trace_mul_comm, ← Matrix.mul_assoc]
+      have : U * Uᴴ = 1 := mul_eq_one_comm.mp hU
+      rw [this, Matrix.one_mul]
+  · rintro ⟨X, hX, rfl⟩
+    refine ⟨U * X * Uᴴ, fidFeasible_conj U hX, ?_⟩
+    rw [Matrix.trace_mul_comm, ← Matrix.mul_assoc, hU, Matrix.one_mul]
+
+/-- `X = ρ` is feasible for the pair `(ρ, ρ)` -/
+theorem fidFeasible_self {ρ : Matrix ι ι ℂ} (hρ : ρ.PosSemidef) : FidFeasible ρ ρ ρ := by
+  unfold FidFeasible
+  have h := posSemidef_fromBlocks_gram (CFC.sqrt ρ) (CFC.sqrt ρ)
+  have e1 : (CFC.sqrt ρ)ᴴ * CFC.sqrt ρ = ρ := by
+    rw [((CFC.sqrt_nonneg ρ).posSemidef).isHermitian.eq]; exact CFC.sqrt_mul_sqrt_self ρ hρ.nonneg
+  rw [e1] at h
+  rwa [hρ.isHermitian.eq]
+
+end Fidelity
+
+/-! ## Bridge from the executable matrices -/
+
+section Bridge
+open EMat
+variable {n k r r' : Nat}
+
+/-- the executable `block` denotes `Matrix.fromBlocks` (indices regrouped by `finSumFinEquiv`) -/
+theorem toM_block (A B C D : EMat n n) :
+    (block A B C D).toM.submatrix finSumFinEquiv finSumFinEquiv
+      = fromBlocks A.toM B.toM C.toM D.toM := by
+  ext i j
+  rcases i with i | i <;> rcases j with j | j <;>
+    simp [block, finSumFinEquiv_apply_left, finSumFinEquiv_apply_right]
+
+theorem psdCert_block_sound (A B C D : EMat n n) (L : EMat (n + n) r)
+    (h : psdCert (block A B C D) L = true) :
+    (fromBlocks A.toM B.toM C.toM D.toM).PosSemidef := by
+  have := (psdCert_sound _ _ h).submatrix (finSumFinEquiv : Fin n ⊕ Fin n → Fin (n + n))
+  rwa [toM_block] at this
+
+theorem psdCertCong_sound (A : EMat n n) (B : EMat n k) (M : EMat k k) (L : EMat k r)
+    (h : psdCertCong A B M L = true) : A.toM.PosSemidef := by
+  simp only [psdCertCong, Bool.and_eq_true] at h
+  rw [beq_sound _ _ h.1, toM_mul, toM_mul, toM_ct]
+  exact (psdCert_sound _ _ h.2).mul_mul_conjTranspose_same _
+
+theorem psdCertCong_block_sound (A B C D : EMat n n) (G : EMat (n + n) k) (M : EMat k k)
+    (L : EMat k r) (h : psdCertCong (block A B C D) G M L = true) :
+    (fromBlocks A.toM B.toM C.toM D.toM).PosSemidef := by
+  have := (psdCertCong_sound _ _ _ _ h).submatrix (finSumFinEquiv : Fin n ⊕ Fin n → Fin (n + n))
+  rwa [toM_block] at this
+
+theorem contractionOk_sound (W : EMat n n) (L1 : EMat n r) (L2 : EMat n r')
+    (h : contractionOk W L1 L2 = true) : IsContraction W.toM := by
+  simp only [contractionOk, Bool.and_eq_true] at h
+  have h1 := psdCert_sound _ _ h.1
+  have h2 := psdCert_sound _ _ h.2
+  rw [toM_sub, toM_one] at h1
+  rw [toM_add, toM_one] at h2
+  exact ⟨h1, h2⟩
+
+theorem checkTNLower_core (H W : EMat n n) (L1 : EMat n r) (L2 : EMat n r') (lo : Rat)
+    (h : checkTNLower H W L1 L2 = some lo) :
+    H.toM.IsHermitian ∧ IsContraction W.toM ∧ (W.toM * H.toM).trace.re = (lo : ℝ) := by
+  unfold checkTNLower at h
+  split at h
+  · next hc =>
+    simp only [Bool.and_eq_true] at hc
+    refine ⟨isHermitian_sound _ hc.1, contractionOk_sound _ _ _ hc.2, ?_⟩
+    rw [← toM_mul, ← re_trace]
+    exact congrArg _ (Option.some.inj h)
+  · exact absurd h (by simp)
+
+theorem checkTNUpper_core (H P Q : EMat n n) (LP : EMat n r) (LQ : EMat n r') (hi : Rat)
+    (h : checkTNUpper H P Q LP LQ = some hi) :
+    P.toM.PosSemidef ∧ Q.toM.PosSemidef ∧ H.toM = P.toM - Q.toM ∧
+      P.toM.trace.re + Q.toM.trace.re = (hi : ℝ) := by
+  unfold checkTNUpper at h
+  split at h
+  · next hc =>
+    simp only [Bool.and_eq_true] at hc
+    obtain ⟨⟨h1, h2⟩, h3⟩ := hc
+    refine ⟨psdCert_sound _ _ h2, psdCert_sound _ _ h3, ?_, ?_⟩
+    · rw [beq_sound _ _ h1, toM_sub]
+    · rw [← re_trace, ← re_trace, ← Rat.cast_add]
+      exact congrArg _ (Option.some.inj h)
+  · exact absurd h (by simp)
+
+theorem checkFidPrimal_core (ρ σ X : EMat n n) (L : EMat (n + n) r) (lo : Rat)
+    (h : checkFidPrimal ρ σ X L = some lo) :
+    FidFeasible ρ.toM σ.toM X.toM ∧ X.toM.trace.re = (lo : ℝ) := by
+  unfold checkFidPrimal at h
+  split at h
+  · next hc =>
+    refine ⟨?_, ?_⟩
+    · have := psdCert_block_sound _ _ _ _ _ hc
+      rwa [toM_ct] at this
+    · rw [← re_trace]
+      exact congrArg _ (Option.some.inj h)
+  · exact absurd h (by simp)
+
+theorem checkFidPrimalCong_core (ρ σ X : EMat n n) (B : EMat (n + n) k) (M : EMat k k)
+    (L : EMat k r) (lo : Rat) (h : checkFidPrimalCong ρ σ X B M L = some lo) :
+    FidFeasible ρ.toM σ.toM X.toM ∧ X.toM.trace.re = (lo : ℝ) := by
+  unfold checkFidPrimalCong at h
+  split at h
+  · next hc =>
+    refine ⟨?_, ?_⟩
+    · have := psdCertCong_block_sound _ _ _ _ _ _ _ hc
+      rwa [toM_ct] at this
+    · rw [← re_trace]
+      exact congrArg _ (Option.some.inj h)
+  · exact absurd h (by simp)
+
+theorem dualValue_cast (ρ σ Y Z : EMat n n) :
+    ((dualValue ρ σ Y Z : Rat) : ℝ) = dualVal ρ.toM σ.toM Y.toM Z.toM := by
+  unfold dualValue dualVal
+  rw [Rat.cast_div, Rat.cast_add, re_trace, re_trace, toM_mul, toM_mul]
+  norm_num
+
+theorem checkFidDual_core (ρ σ Y Z : EMat n n) (L : EMat (n + n) r) (hi : Rat)
+    (h : checkFidDual ρ σ Y Z L = some hi) :
+    FidDualFeasible Y.toM Z.toM ∧ dualVal ρ.toM σ.toM Y.toM Z.toM = (hi : ℝ) := by
+  unfold checkFidDual at h
+  split at h
+  · next hc =>
+    refine ⟨?_, ?_⟩
+    · have := psdCert_block_sound _ _ _ _ _ hc
+      rw [toM_ct, toM_neg, toM_one] at this
+      exact this
+    · rw [← dualValue_cast]
+      exact congrArg _ (Option.some.inj h)
+  · exact absurd h (by simp)
+
+theorem checkMatsPrimal_core (ρ σ W : EMat n n) (L : EMat (n + n) r) (lo : Rat)
+    (h : checkMatsPrimal ρ σ W L = some lo) :
+    W.toM.IsHermitian ∧ FidFeasible ρ.toM σ.toM W.toM ∧ W.toM.trace.re = (lo : ℝ) := by
+  unfold checkMatsPrimal at h
+  split at h
+  · next hc =>
+    obtain ⟨h1, h2⟩ := checkFidPrimal_core _ _ _ _ _ h
+    exact ⟨isHermitian_sound _ hc, h1, h2⟩
+  · exact absurd h (by simp)
+
+theorem checkMatsDual_core (ρ σ Y Z C : EMat n n) (L : EMat (n + n) r) (hi : Rat)
+    (h : checkMatsDual ρ σ Y Z C L = some hi) :
+    C.toM + C.toMᴴ = (-2 : ℂ) • (1 : Matrix (Fin n) (Fin n) ℂ) ∧ DualBlockPsd Y.toM Z.toM C.toM ∧
+      dualVal ρ.toM σ.toM Y.toM Z.toM = (hi : ℝ) := by
+  unfold checkMatsDual at h
+  split at h
+  · next hc =>
+    simp only [Bool.and_eq_true, offDiagOk] at hc
+    refine ⟨?_, ?_, ?_⟩
+    · have := beq_sound _ _ hc.1
+      rw [toM_add, toM_ct, toM_scalar] at this
+      rw [this]
+      norm_num
+    · have := psdCert_block_sound _ _ _ _ _ hc.2
+      rwa [toM_ct] at this
+    · rw [← dualValue_cast]
+      exact congrArg _ (Option.some.inj h)
+  · exact absurd h (by simp)
+
+/-! ### exactly computable quantities -/
+
+theorem hsDist_cast (ρ σ : EMat n n) :
+    ((hsDist ρ σ : Rat) : ℝ) = ((ρ.toM - σ.toM) * (ρ.toM - σ.toM)).trace.re := by
+  unfold hsDist
+  rw [re_trace, toM_mul, toM_sub]
+
+theorem hsInner_toC (A B : EMat n k) : (hsInner A B).toC = (A.toMᴴ * B.toM).trace := by
+  unfold hsInner
+  rw [toC_trace, toM_mul, toM_ct]
+
+theorem trProd_cast (ρ σ : EMat n n) : ((trProd ρ σ : Rat) : ℝ) = (ρ.toM * σ.toM).trace.re := by
+  unfold trProd
+  rw [re_trace, toM_mul]
+
+theorem trProd4_cast (ρ σ : EMat n n) :
+    ((trProd4 ρ σ : Rat) : ℝ) = (ρ.toM * σ.toM * (ρ.toM * σ.toM)).trace.re := by
+  unfold trProd4
+  rw [re_trace, toM_mul, toM_mul]
+
+end Bridge
 
 end Toq.Metrics
